@@ -192,6 +192,11 @@ func (h *hesitantReader) Read(p []byte) (int, error) {
 	return h.r.Read(p)
 }
 
+// writeOnly exposes Write only.
+type writeOnly struct{ b *bytes.Buffer }
+
+func (w writeOnly) Write(p []byte) (int, error) { return w.b.Write(p) }
+
 var sourceKinds = []string{"bytes.Reader", "one-byte", "data+EOF", "hesitant"}
 
 func source(kind string, b []byte) io.Reader {
@@ -219,6 +224,13 @@ func checkASC(c *runner.Ctx, obj, ch, f, ext int) bool {
 	ref := refASC(obj, ch, f, ext, false)
 	if !bytes.Equal(buf.Bytes(), ref) {
 		c.Violation("asc/bytes-vs-reference/"+cls, fmt.Sprintf("Encode(%+v) = %x, reference layout %x", x, buf.Bytes(), ref), det)
+		return false
+	}
+	// the same into a destination that exposes Write only (a file, a socket)
+	var plain bytes.Buffer
+	in2 := x
+	if err := in2.Encode(writeOnly{&plain}); err != nil || !bytes.Equal(plain.Bytes(), ref) {
+		c.Violation("asc/encode-to-plain-writer/"+cls, fmt.Sprintf("Encode(%+v) into a Write-only destination wrote %x (err %v), reference layout %x", x, plain.Bytes(), err, ref), det)
 		return false
 	}
 	for _, sk := range sourceKinds {
@@ -455,6 +467,17 @@ func checkADTS(c *runner.Ctx, obj, fi, ch, plen, full int, junk []byte, junkKind
 		HeaderLength: 7, PayloadLength: uint16(plen), BufferFullness: uint16(full)}
 	cls := "junk=" + junkKind
 	det := map[string]interface{}{"objType": obj, "freqIndex": fi, "channel": ch, "payloadLength": plen, "fullness": full, "junk": fmt.Sprintf("%x", junk)}
+	if obj == 2 && full == 0x7ff && len(junk) == 0 {
+		// the constructor: for AAC-LC and a table frequency it must give exactly this header, for every payload length 0..8184
+		if f, okf := aac.FrequencyTable[byte(fi)]; okf {
+			nh, nerr := aac.NewADTSHeader(f, byte(ch), 2, uint16(plen))
+			if nerr != nil || nh == nil || *nh != h {
+				c.Violation("adts/constructor", fmt.Sprintf("NewADTSHeader(%d, %d, 2, %d) = %+v, %v; the header with these values is %+v", f, ch, plen, nh, nerr, h), det)
+				return false
+			}
+			c.Count("adts_constructor_checked", 1)
+		}
+	}
 	enc := h.Encode()
 	ref := refADTS(obj, fi, ch, plen, full)
 	if !bytes.Equal(enc, ref) {
